@@ -16,6 +16,14 @@ OUT = os.path.join(os.path.dirname(os.path.abspath(__file__)), "..", "lean", "WW
 LH = "contracts/liquidity_hub/"
 PN = LH + "pool-network/"
 NUM = r"([0-9][0-9_]*)"
+DECSTR = r'"([0-9]+(?:\.[0-9]{1,18})?)"'  # a `Decimal::from_str` literal; value = 18-decimal atomics
+
+
+def dec18(s):
+    """atomics of `Decimal::from_str(s)` (18 fractional digits)"""
+    whole, _, frac = s.partition(".")
+    return int(whole) * 10 ** 18 + int((frac + "0" * 18)[:18] or "0")
+
 
 TABLE = [
     ("MINIMUM_LIQUIDITY_AMOUNT", "packages/white-whale-std/src/pool_network/asset.rs",
@@ -38,6 +46,8 @@ TABLE = [
      r"pub const DAY_IN_NANOSECONDS: u64 = " + NUM),
     ("LAIR_BONDING_ASSETS_LIMIT", LH + "whale_lair/src/state.rs", r"pub const BONDING_ASSETS_LIMIT: usize = " + NUM),
     ("LAIR_DAY_IN_SECONDS", LH + "whale_lair/src/helpers.rs", r"pub const DAY_IN_SECONDS: u64 = " + NUM),
+    ("LAIR_MAX_PAGE_LIMIT", LH + "whale_lair/src/queries.rs", r"pub const MAX_PAGE_LIMIT: u8 = " + NUM),
+    ("LAIR_DEFAULT_PAGE_LIMIT", LH + "whale_lair/src/queries.rs", r"pub const DEFAULT_PAGE_LIMIT: u8 = " + NUM),
     ("INCENTIVE_MAX_EPOCH_LIMIT", PN + "incentive/src/helpers.rs", r"pub const MAX_EPOCH_LIMIT: u64 = " + NUM),
     ("INCENTIVE_EPOCH_CLAIM_CAP", PN + "incentive/src/claim.rs", r"pub const EPOCH_CLAIM_CAP: u64 = " + NUM),
     ("INCENTIVE_MIN_FLOW_AMOUNT", PN + "incentive/src/execute/open_flow.rs",
@@ -56,6 +66,14 @@ TABLE = [
      r"const MAX_LIMIT: u32 = " + NUM),
     ("INCENTIVE_FACTORY_DEFAULT_LIMIT", PN + "incentive_factory/src/queries/get_incentives.rs",
      r"const DEFAULT_LIMIT: u32 = " + NUM),
+    ("SWAP_DEFAULT_SLIPPAGE", "packages/white-whale-std/src/pool_network/swap.rs",
+     r"pub const DEFAULT_SLIPPAGE: &str = " + DECSTR, dec18),
+    ("SWAP_MAX_ALLOWED_SLIPPAGE", "packages/white-whale-std/src/pool_network/swap.rs",
+     r"pub const MAX_ALLOWED_SLIPPAGE: &str = " + DECSTR, dec18),
+    ("SWAP_DEFAULT_SLIPPAGE_ATOMICS", "packages/white-whale-std/src/pool_network/swap.rs",
+     r"pub const DEFAULT_SLIPPAGE: &str = " + DECSTR, dec18),
+    ("SWAP_MAX_ALLOWED_SLIPPAGE_ATOMICS", "packages/white-whale-std/src/pool_network/swap.rs",
+     r"pub const MAX_ALLOWED_SLIPPAGE: &str = " + DECSTR, dec18),
 ]
 
 
@@ -63,7 +81,7 @@ def main():
     lines = ["/- GENERATED by tools/extract_constants.py from /repo on every check run. Do not edit. -/",
              "namespace WW.Gen", ""]
     missing = []
-    for name, rel, rx in TABLE:
+    for name, rel, rx, *conv in TABLE:
         path = os.path.join(REPO, rel)
         try:
             src = open(path).read()
@@ -74,7 +92,7 @@ def main():
         if not m:
             missing.append(f"{name} ({rel}: pattern not found)")
             continue
-        val = int(m.group(1).replace("_", ""))
+        val = conv[0](m.group(1)) if conv else int(m.group(1).replace("_", ""))
         lines.append(f"/-- `{rel}` -/")
         lines.append(f"def {name} : Nat := {val}")
     lines += ["", "end WW.Gen", ""]
